@@ -44,12 +44,13 @@ class SInt(Sym):
 class SReal(Sym):
     """A float: a mathematical real plus a NaN flag (z3 Bool or python False)."""
 
-    def __init__(self, term, nan=False):
+    def __init__(self, term, nan=False, inf=0):
         self.term = term
         self.nan = nan
+        self.inf = inf        # 0 (finite), or a z3 Int term in {-1, 0, 1}: sign of an infinity
 
     def __repr__(self):
-        return f"SReal({self.term}, nan={self.nan})"
+        return f"SReal({self.term}, nan={self.nan}" + (f", inf={self.inf})" if not (isinstance(self.inf, int) and self.inf == 0) else ")")
 
 
 class SAtom(Sym):
@@ -155,6 +156,10 @@ def nanflag(v):
     if isinstance(v, SReal):
         return v.nan
     return False
+
+
+def infsign(v):
+    return getattr(v, "inf", 0) if isinstance(v, SReal) else 0
 
 
 def zor(*flags):
